@@ -16,6 +16,7 @@ differential execution in harness/rten/src/bin/c14.rs — level "proof + partial
 -/
 import RtenVerif.Lemmas.FastBroadcastIdx
 import RtenVerif.Lemmas.LayoutSeq
+import RtenVerif.Lemmas.InPlace
 
 namespace RtenVerif.FastBroadcast
 
@@ -116,6 +117,17 @@ theorem c14_fast_broadcast_index {α : Type} (frm to : List Nat) (c r : Nat) (x 
       ∀ i, i < c * r * x.length → (bcastTo x frm to)[i]? = x[(i / r) % x.length]? := by
   rw [c14_fast_broadcast_sound frm to c r x hfb hrank hx]
   exact ⟨length_cycleRepeat c r x, fun i hi => getElem?_cycleRepeat c r x i hi⟩
+
+/-- **C14 T1 (reference).** The nested reference `bcast` used above *is* the broadcast defined by
+index maps: for shapes accepted by `can_broadcast_to`, output element `idx` (row-major position
+of `idx` in `to`) is source element `bcIdx idx` — 0 on stretched axes — (row-major position in
+`from`). -/
+theorem c14_reference_is_index_map {α : Type} (frm to : List Nat) (x : List α)
+    (h : RtenVerif.InPlace.canBroadcastTo frm to = true) (hx : x.length = numel frm) :
+    (bcastTo x frm to).map some = bcastIdx (pairsTo frm to) x := by
+  obtain ⟨hle, hc⟩ := RtenVerif.InPlace.compat_of_canBroadcastTo frm to h
+  exact RtenVerif.InPlace.bcast_eq_bcastIdx _ _ hc
+    (by rw [map_fst_pairsTo _ _ hle, numel_padFrom, hx]; exact Nat.le_refl _)
 
 /-- Non-vacuity: leading + trailing broadcast around a kept axis. -/
 example : fastBroadcast [3, 1] [2, 3, 2] = .some 2 2 ∧
